@@ -64,10 +64,29 @@ ReVals == LET a4 == <<<<9>>>> a3 == <<Z, <<a4>>>> a2 == <<Z, <<a3>>>>
 \* values of a schema: for aggregates one member at a time over its FV plus all-mid / all-max
 OneAt(t) == LET d == Default(t)
             IN Flat([j \in 1..Len(t.fs) |-> LET fv == FV(t.fs[j].t) IN [x \in 1..Len(fv) |-> [d EXCEPT ![j] = fv[x]]]])
-ValsOf(nm) == LET t == Def(nm)
+\* boundary values: payload lengths around 127 / 128 (and 16383 / 16384) for members with 1, 2 and 3 byte tags - directly,
+\* nested with following siblings, inside containers.  The oracle is VarintSize / Varint of Wire.tla.
+StrN(n) == [i \in 1..n |-> 65 + (i % 7)]
+BSv(j, n) == [DBS EXCEPT ![j] = StrN(n)]
+BoundaryVals(nm) ==
+  CASE nm = "BS" -> <<[j \in 1..5 |-> StrN(127)]>>
+                    \o Flat([j \in 1..5 |-> [q \in 1..11 |-> BSv(j, 119 + q)]])
+    \* the same around 16383 / 16384 (schemas BSL / BNL = the types of BS / BN; thorough tier only: 16 KiB sequences are slow in TLC)
+    [] nm = "BSL" -> Flat([j \in 1..2 |-> [q \in 1..6 |-> BSv(2 * j - 1, 16379 + q)]])
+    [] nm = "BNL" -> [q \in 1..8 |-> <<BSv(1, 16375 + q), <<1>>>>]
+    [] nm = "BN" -> Flat([j \in 1..3 |-> [q \in 1..11 |-> <<BSv(2 * j - 1, 119 + q), <<1>>>>]])
+    [] nm = "BM" -> Flat([j \in 1..2 |-> [q \in 1..11 |-> <<BSv(4 * j - 3, 119 + q), <<<<1>>, U32MAX>>, <<5>>>>]])
+                    \o [q \in 1..4 |-> <<DBS, [i \in 1..125 + q |-> <<1>>], <<5>>>>]
+    [] nm = "BC" -> [q \in 1..5 |-> <<<<StrN(124 + q)>>, <<>>, <<>>, <<>>>>]
+                    \o [q \in 1..5 |-> <<<<StrN(124 + q), <<65>>>>, <<>>, <<>>, <<>>>>]
+                    \o [q \in 1..7 |-> <<<<>>, <<<<StrN(121 + q), <<>>>>, <<<<66>>, <<>>>>>>, <<>>, <<>>>>]
+                    \o [q \in 1..4 |-> <<<<>>, <<>>, [i \in 1..125 + q |-> <<1>>], <<>>>>]
+                    \o [q \in 1..4 |-> <<<<>>, <<>>, <<>>, <<StrN(124 + q), <<65>>>>>>]
+ValsOfG(nm) == LET t == Def(nm)
             IN IF nm = "Re" THEN ReVals
                ELSE IF t.k \in {"agg", "pb"} THEN <<MaxV(t), MidV(t)>> \o OneAt(t) ELSE FV(t)
 \* the values whose encodings are mutated / permuted / extended (all-max, all-mid, and the last few)
+ValsOf(nm) == IF nm \in {"BS", "BN", "BM", "BC", "BSL", "BNL"} THEN BoundaryVals(nm) ELSE ValsOfG(nm)
 ValsTab == [nm \in ValSchemas |-> ValsOf(nm)]
 Vals(nm) == ValsTab[nm]
 NSel(nm) == Min2(Len(Vals(nm)), 2)
